@@ -613,13 +613,21 @@ def rule_crlf(ctx, R):
         R.broken.append("variant switch of serialize_resp_frame not found"); return
     i, t = sw
     ts = dict(t["ts"])
+    # arm regions by reachability: what an arm's entry reaches minus what every arm reaches (the
+    # common continuation) -- or-pattern arms (`SimpleString(s) | Error(s)`) share one body that no
+    # single entry edge dominates
+    reach_ = {v_: cfg.fwd(b, [tb_]) for v_, tb_ in ts.items()}
+    common_ = set.intersection(*reach_.values()) if reach_ else set()
+
+    def arm_region_(tgt_):
+        return (cfg.fwd(b, [tgt_]) - common_) | cfg.edge_dom_set(b, i, tgt_)
     n = 0
     for vname in ("SimpleString", "Error"):
         d = ctx.prog.variant_discr("protocol::resp::RespFrame", vname)
         tgt = ts.get(d)
         if tgt is None:
             R.finding(SER, "arm:%s:missing" % vname, "no serializer arm for %s" % vname, b.loc(i)); continue
-        reg = cfg.edge_dom_set(b, i, tgt)
+        reg = arm_region_(tgt)
         for x in sorted(reg):
             tt = b.term(x)
             if tt["k"] != "call":
@@ -654,7 +662,7 @@ def rule_crlf(ctx, R):
     d = ctx.prog.variant_discr("protocol::resp::RespFrame", "BulkString")
     tgt = ts.get(d)
     if tgt is not None:
-        reg = cfg.edge_dom_set(b, i, tgt)
+        reg = arm_region_(tgt)
         lens = []; datas = []
         for x in sorted(reg):
             tt = b.term(x)
